@@ -24,6 +24,10 @@ CLAIMED = {
         text="FitBase.ndf and MultiFit.ndf (nested loops over the multi-fit's own and every member's constraints) are verified against the documented formula N_d + sum extra_ndf - N_p + N_fixed, with extra_ndf of both constraint classes proved against 1 resp. n; CostFunction.goodness_of_fit is verified for every built-in argument configuration against cost(determinant zeroed) - handle(model:=data), CostFunction_GaussApproximation.goodness_of_fit against the flag save/restore protocol, FitBase.goodness_of_fit against the choice of pointwise/covariance variant with node values in argument order, chi2_probability of cost wrapper, fit and multi-fit against 1 - chi2cdf(cost - log-determinant terms, ndf) with each log-determinant subtracted exactly once.",
         note="Trusted: chi2.cdf (uninterpreted), cost handle is a pure function, node values are what Nexus.get(name).value returns (C04), dict length = number of fixed parameters (fix/release bookkeeping is dict semantics, exercised natively), equality of covariance and pointwise chi2 on diagonal matrices (stated linear-algebra fact), floats as reals. Bounded only: end-to-end formulas on real fits and multi-fits (native run).",
         ref="3 C10"),
+    "C04": dict(
+        text="The representation invariant of the node graph (edge symmetry S, staleness closure I, cache correctness J with values, parameter/children sync, acyclicity witness) is proved to be preserved by every node operation of nexus.py from an arbitrary invariant-satisfying state: mark_for_update/notify_parents (mutually recursive, by contract), value setter and getter, update of leaf/Alias/Function/Tuple nodes incl. user functions that raise (the node then stays stale), freeze/unfreeze, add/remove child/parent, replace_child, replace, set_children, func setter, add_parameter, Tuple.__setitem__; the ghost evaluation counter proves 'each definition is evaluated at most once per read and only if the node was stale'. The Lean lemma cache_correct turns the invariant into 'a read returns the from-scratch value'. This is the unbounded-history quantifier of the property collapsed into one obligation per operation.",
+        note="Trusted: lists/sets of nodes abstracted to relations; weakrefs never die during an operation; user functions pure (frame axiom on definitions); iterator contract for parent/child iteration; Lean/Mathlib (lemma checked in thorough tier); partial correctness of the two recursions; z3/cvc5. Not under contract (bounded native histories only): Array.update, Fallback.update (open known finding KF-C04-1), Nexus.add/add_function/add_alias/add_dependency/get_value_dict, NodeCycleChecker (assumed contract, exhaustively exercised on all 3-node digraphs).",
+        ref="3 C04"),
 }
 
 NOT_APPLICABLE = {
